@@ -171,7 +171,7 @@ def check_doc(case: Dict[str, Any]) -> Tuple[List[Tuple[str, str]], Dict[str, An
 
 def plan(tier: str, seed: int, scale: float = 1.0) -> List[Any]:
     n = ncpu()
-    total = int((2500 if tier == 'quick' else 40000) * scale)
+    total = int((8000 if tier == 'quick' else 80000) * scale)
     shards = n if tier == 'quick' else 2 * n
     return [{'n': max(1, total // shards), 'seed': seed * 1000 + i} for i in range(shards)]
 
@@ -185,7 +185,7 @@ def work(item: Dict[str, Any]) -> Acc:
         fmt = draw(st.sampled_from(FORMATS))
         kind = draw(st.sampled_from(['function', 'function', 'class']))
         fam = 'sections' if fmt in ('google', 'numpy') else 'markup'
-        doc = draw(docmodel.documents(kind=kind, fmt_family=fam))
+        doc = draw(docmodel.documents(kind=kind, fmt_family=fam, epytext=(fmt == 'epytext')))
         return {'doc': doc, 'fmt': fmt}
 
     def body(c):
